@@ -159,6 +159,8 @@ func (pConn *PFCPConn) handleAssociationSetupRequest(msg message.Message) (messa
 		return asres, errProcess(errDatapathDown)
 	}
 
+	pConn.assocMu.Lock()
+
 	if pConn.ts.remote.IsZero() {
 		pConn.ts.remote = ts
 		logger.PfcpLog.Infoln("association Setup Request from", addr,
@@ -171,10 +173,13 @@ func (pConn *PFCPConn) handleAssociationSetupRequest(msg message.Message) (messa
 	}
 
 	pConn.nodeID.remote = nodeID
+
+	pConn.assocMu.Unlock()
+
 	asres.Cause = ie.NewCause(ie.CauseRequestAccepted)
 
 	logger.PfcpLog.Infoln("association setup done between nodes",
-		"local:", pConn.nodeID.local, "remote:", pConn.nodeID.remote)
+		"local:", pConn.nodeID.local, "remote:", nodeID)
 
 	return asres, nil
 }
@@ -212,6 +217,8 @@ func (pConn *PFCPConn) handleAssociationSetupResponse(msg message.Message) error
 		return errUnmarshal(err)
 	}
 
+	pConn.assocMu.Lock()
+
 	if pConn.ts.remote.IsZero() {
 		pConn.ts.remote = ts
 		logger.PfcpLog.Infoln("association Setup Response from", addr,
@@ -224,8 +231,11 @@ func (pConn *PFCPConn) handleAssociationSetupResponse(msg message.Message) error
 	}
 
 	pConn.nodeID.remote = nodeID
+
+	pConn.assocMu.Unlock()
+
 	logger.PfcpLog.Infoln("association setup done between nodes",
-		"local:", pConn.nodeID.local, "remote:", pConn.nodeID.remote)
+		"local:", pConn.nodeID.local, "remote:", nodeID)
 
 	return nil
 }
